@@ -413,7 +413,7 @@ pub fn run(ctx: &Ctx) -> Report {
     //      record or a later one may reach the shim. Cuts on a record boundary are not judged.
     if !ctx.miri {
         if let Ok(tm) = crate::tls::TlsMaterial::generate() {
-            let n = ctx.n(400, 20_000);
+            let n = ctx.n(400, 3000);
             let r = par_cases(ctx, "C19", "tls-cut", n, |rng, i, rep| {
                 let ncmd = rng.range(1, 5) as usize;
                 let mut cmds = Vec::new();
